@@ -253,6 +253,44 @@ Proof.
     apply key_enc_entry.
 Qed.
 
+(* ------------------------------------------------------------------ the views as a CBOR item *)
+(* Encoder::i64 writes the shortest head *)
+Definition int_item (n : Z) : item :=
+  if 0 <=? n then UInt (min_width n) n else Item.NInt (min_width (-1 - n)) (-1 - n).
+
+Lemma e_int_item n : e_int n = encode_item (int_item n).
+Proof. unfold e_int, int_item, enc_head_min. destruct (0 <=? n); reflexivity. Qed.
+
+Lemma concat_ints c : concat (map e_int c) = concat (map encode_item (map int_item c)).
+Proof. rewrite map_map. f_equal. apply map_ext. intros n. apply e_int_item. Qed.
+
+Definition entry_item (kc : Z * cost_model) : item * item :=
+  if fst kc =? 0 then
+    (Bytes W0 [0],
+     let inner := encode_item (ArrayIndef (map int_item (snd kc))) in Bytes (min_width (len inner)) inner)
+  else (UInt (min_width (fst kc)) (fst kc), Array (min_width (len (snd kc))) (map int_item (snd kc))).
+
+Lemma enc_entry_item kc : enc_entry kc = encode_pair (entry_item kc).
+Proof.
+  unfold enc_entry, entry_item, encode_pair, key_enc. destruct (fst kc =? 0); cbn [fst snd encode_item].
+  - unfold enc_v1_inner, e_bytes, enc_head_min. rewrite concat_ints. reflexivity.
+  - unfold e_vec, e_array, e_uint, enc_head_min. rewrite concat_ints. unfold len. rewrite map_length. reflexivity.
+Qed.
+
+Lemma lv_item_proof m :
+  wf_lviews m = true ->
+  exists entries,
+    Permutation entries m /\ StronglySorted key_lt (map fst entries) /\
+    enc_language_views m = encode_item (Map (min_width (len m)) (map entry_item entries)).
+Proof.
+  intros Hwf. destruct (lv_encoding_proof m Hwf) as (entries & Hp & Hs & He). exists entries.
+  split; [exact Hp|]. split; [exact Hs|]. rewrite He. cbn [encode_item]. unfold e_map, enc_head_min.
+  assert (Hl : len (map entry_item entries) = len m).
+  { unfold len. rewrite map_length. f_equal. apply Permutation_length, Hp. }
+  rewrite Hl. f_equal. rewrite map_map. f_equal. apply map_ext. intros kc.
+  rewrite enc_entry_item. unfold encode_pair. destruct (entry_item kc). reflexivity.
+Qed.
+
 (* ------------------------------------------------------------------ the hash *)
 Section Hash.
   (* Blake2b-256 (pallas_crypto::hash::Hasher::<256>::hash), abstract *)
